@@ -114,56 +114,72 @@ func init() {
 	register(target{name: "access", pkg: "accesspb", typ: reflect.TypeOf(&accesspb.Model{}),
 		build: func(e *env) *instance {
 			m := accesspb.NewModel()
-			return &instance{state: one(ge(m.GetLastAccessAttempt)),
+			return &instance{model: m, state: one(ge(m.GetLastAccessAttempt)),
 				ops: valueOps([3]string{"GetLastAccessAttempt", "UpdateLastAccessAttempt", "PullAccessAttempts"},
 					ge(m.GetLastAccessAttempt), m.UpdateLastAccessAttempt, ch(m.PullAccessAttempts), nil)}
 		}})
 	register(target{name: "airquality", pkg: "airqualitysensorpb", typ: reflect.TypeOf(&airqualitysensorpb.Model{}),
 		build: func(e *env) *instance {
-			m := airqualitysensorpb.NewModel(airqualitysensorpb.WithInitialAirQuality(newMsg[*traits.AirQuality](e, 50)))
-			return &instance{state: one(ge(m.GetAirQuality)),
+			var opts []resource.Option
+			if e.present {
+				opts = append(opts, airqualitysensorpb.WithInitialAirQuality(newMsg[*traits.AirQuality](e, 50)))
+			}
+			m := airqualitysensorpb.NewModel(opts...)
+			return &instance{model: m, state: one(ge(m.GetAirQuality)),
 				ops: valueOps([3]string{"GetAirQuality", "UpdateAirQuality", "PullAirQuality"},
 					ge(m.GetAirQuality), m.UpdateAirQuality, ch(m.PullAirQuality), nil)}
 		}})
 	register(target{name: "airtemperature", pkg: "airtemperaturepb", typ: reflect.TypeOf(&airtemperaturepb.Model{}),
 		build: func(e *env) *instance {
-			m := airtemperaturepb.NewModel(airtemperaturepb.WithInitialAirTemperature(newMsg[*traits.AirTemperature](e, 50)))
-			return &instance{state: one(ge(m.GetAirTemperature)),
+			var opts []resource.Option
+			if e.present {
+				opts = append(opts, airtemperaturepb.WithInitialAirTemperature(newMsg[*traits.AirTemperature](e, 50)))
+			}
+			m := airtemperaturepb.NewModel(opts...)
+			return &instance{model: m, state: one(ge(m.GetAirTemperature)),
 				ops: valueOps([3]string{"GetAirTemperature", "UpdateAirTemperature", "PullAirTemperature"},
 					ge(m.GetAirTemperature), m.UpdateAirTemperature, ch(m.PullAirTemperature), nil)}
 		}})
 	register(target{name: "energystorage", pkg: "energystoragepb", typ: reflect.TypeOf(&energystoragepb.Model{}),
 		build: func(e *env) *instance {
 			m := energystoragepb.NewModel()
-			return &instance{state: one(ge(m.GetEnergyLevel)),
+			return &instance{model: m, state: one(ge(m.GetEnergyLevel)),
 				ops: valueOps([3]string{"GetEnergyLevel", "UpdateEnergyLevel", "PullEnergyLevel"},
 					ge(m.GetEnergyLevel), m.UpdateEnergyLevel, ch(m.PullEnergyLevel), nil)}
 		}})
 	register(target{name: "occupancy", pkg: "occupancysensorpb", typ: reflect.TypeOf(&occupancysensorpb.Model{}),
 		build: func(e *env) *instance {
-			m := occupancysensorpb.NewModel(occupancysensorpb.WithInitialOccupancy(newMsg[*traits.Occupancy](e, 50)))
-			return &instance{state: one(ge(m.GetOccupancy)),
+			var opts []resource.Option
+			if e.present {
+				opts = append(opts, occupancysensorpb.WithInitialOccupancy(newMsg[*traits.Occupancy](e, 50)))
+			}
+			m := occupancysensorpb.NewModel(opts...)
+			return &instance{model: m, state: one(ge(m.GetOccupancy)),
 				ops: valueOps([3]string{"GetOccupancy", "SetOccupancy", "PullOccupancy"},
 					ge(m.GetOccupancy), m.SetOccupancy, ch(m.PullOccupancy), nil)}
 		}})
 	register(target{name: "onoff", pkg: "onoffpb", typ: reflect.TypeOf(&onoffpb.Model{}),
 		build: func(e *env) *instance {
-			m := onoffpb.NewModel(onoffpb.WithInitialOnOff(newMsg[*traits.OnOff](e, 50)))
-			return &instance{state: one(ge(m.GetOnOff)),
+			var opts []resource.Option
+			if e.present {
+				opts = append(opts, onoffpb.WithInitialOnOff(newMsg[*traits.OnOff](e, 50)))
+			}
+			m := onoffpb.NewModel(opts...)
+			return &instance{model: m, state: one(ge(m.GetOnOff)),
 				ops: valueOps([3]string{"GetOnOff", "UpdateOnOff", "PullOnOff"},
 					ge(m.GetOnOff), m.UpdateOnOff, ch(m.PullOnOff), nil)}
 		}})
 	register(target{name: "press", pkg: "presspb", typ: reflect.TypeOf(&presspb.Model{}),
 		build: func(e *env) *instance {
 			m := presspb.NewModel(traits.PressedState_Press(e.r.Intn(3)))
-			return &instance{state: one(m.GetPressedState),
+			return &instance{model: m, state: one(m.GetPressedState),
 				ops: valueOps([3]string{"GetPressedState", "UpdatePressedState", "PullPressedState"},
 					m.GetPressedState, m.UpdatePressedState, ch(m.PullPressedState), nil)}
 		}})
 	register(target{name: "meter", pkg: "meterpb", typ: reflect.TypeOf(&meterpb.Model{}),
 		build: func(e *env) *instance {
 			var opts []resource.Option
-			if e.flip(50) {
+			if e.present {
 				opts = append(opts, resource.WithInitialValue(newMsg[*traits.MeterReading](e, 60)))
 			}
 			m := meterpb.NewModel(opts...)
@@ -176,7 +192,7 @@ func init() {
 					return err
 				}},
 				op{name: "Reset", run: func(e *env) error { res, err := m.Reset(); e.out("result", res); return err }})
-			return &instance{state: one(ge(m.GetMeterReading)), ops: ops}
+			return &instance{model: m, state: one(ge(m.GetMeterReading)), ops: ops}
 		}})
 	register(target{name: "fanspeed", pkg: "fanspeedpb", typ: reflect.TypeOf(&fanspeedpb.Model{}),
 		notOps: []string{"DeriveValues"}, // an interceptor, exported for composition
@@ -187,7 +203,7 @@ func init() {
 				f.Preset = e.pick("", "", "off", "low", "med", "high", "full")
 				return f
 			}
-			return &instance{state: one(m.FanSpeed),
+			return &instance{model: m, state: one(m.FanSpeed),
 				ops: valueOps([3]string{"FanSpeed", "UpdateFanSpeed", "PullFanSpeed"}, m.FanSpeed, m.UpdateFanSpeed, ch(m.PullFanSpeed), mk)}
 		}})
 	register(target{name: "mode", pkg: "modepb", typ: reflect.TypeOf(&modepb.Model{}),
@@ -204,7 +220,7 @@ func init() {
 					outList(e, "element", m.AvailableValues(e.pick("a", "b", "zz")))
 					return nil
 				}})
-			return &instance{ops: ops, state: func() []proto.Message { return []proto.Message{m.ModeValues(), m.Modes()} }}
+			return &instance{model: m, ops: ops, state: func() []proto.Message { return []proto.Message{m.ModeValues(), m.Modes()} }}
 		}})
 	register(target{name: "light", pkg: "lightpb", typ: reflect.TypeOf(&lightpb.Model{}),
 		build: func(e *env) *instance {
@@ -221,19 +237,19 @@ func init() {
 			ops := valueOps([3]string{"GetBrightness", "UpdateBrightness", "PullBrightness"},
 				ge(m.GetBrightness), m.UpdateBrightness, ch(m.PullBrightness), mk)
 			ops = append(ops, op{name: "ListPresets", ro: true, run: func(e *env) error { outList(e, "element", m.ListPresets()); return nil }})
-			return &instance{ops: ops, state: func() []proto.Message {
+			return &instance{model: m, ops: ops, state: func() []proto.Message {
 				return append([]proto.Message{ge(m.GetBrightness)()}, msgs(m.ListPresets())...)
 			}}
 		}})
 	register(target{name: "enterleave", pkg: "enterleavesensorpb", typ: reflect.TypeOf(&enterleavesensorpb.Model{}),
 		build: func(e *env) *instance {
 			var opts []resource.Option
-			if e.flip(50) {
+			if e.present {
 				opts = append(opts, enterleavesensorpb.WithInitialEnterLeaveEvent(newMsg[*traits.EnterLeaveEvent](e, 70)))
 			}
 			m := enterleavesensorpb.NewModel(opts...)
 			z := &traits.EnterLeaveEvent{}
-			return &instance{state: one(ge(m.GetEnterLeaveEvent)), ops: []op{
+			return &instance{model: m, state: one(ge(m.GetEnterLeaveEvent)), ops: []op{
 				{name: "GetEnterLeaveEvent", ro: true, run: func(e *env) error {
 					e.out("result", ge(m.GetEnterLeaveEvent)(readOpts(e, z)...))
 					return nil
@@ -297,7 +313,7 @@ func init() {
 					e.out("result", res)
 					return err
 				}})
-			return &instance{ops: ops, state: one(ge(m.GetMetadata))}
+			return &instance{model: m, ops: ops, state: one(ge(m.GetMetadata))}
 		}})
 	register(target{name: "metadatacollection", pkg: "metadatapb", typ: reflect.TypeOf(&metadatapb.Collection{}),
 		build: func(e *env) *instance {
@@ -312,7 +328,7 @@ func init() {
 				}
 				return md
 			}
-			return &instance{state: func() []proto.Message { return msgs(m.ListMetadata()) }, ops: []op{
+			return &instance{model: m, state: func() []proto.Message { return msgs(m.ListMetadata()) }, ops: []op{
 				{name: "GetMetadata", ro: true, run: func(e *env) error {
 					res, err := m.GetMetadata(name(e), readOpts(e, z)...)
 					e.out("result", res)
@@ -380,12 +396,12 @@ func init() {
 				return c
 			}
 			var initial []*traits.Child
-			for _, n := range strPool[:e.r.Intn(3)] {
+			for _, n := range e.initialIDs() {
 				initial = append(initial, mkChild(e, n))
 			}
 			m := parentpb.NewModel(parentpb.WithInitialChildren(initial...))
 			name := func(e *env) string { return e.pick("a", "b", "c", "d") }
-			return &instance{state: func() []proto.Message { return msgs(m.ListChildren()) }, ops: []op{
+			return &instance{model: m, state: func() []proto.Message { return msgs(m.ListChildren()) }, ops: []op{
 				{name: "ListChildren", ro: true, run: func(e *env) error { outList(e, "element", m.ListChildren()); return nil }},
 				{name: "AddChild", run: func(e *env) error {
 					c := mkChild(e, name(e))
@@ -431,7 +447,7 @@ func init() {
 			m := wastepb.NewModel()
 			z := &traits.WasteRecord{}
 			all := func() []*traits.WasteRecord { n := m.GetWasteRecordCount(); return m.ListWasteRecords(n, n) }
-			return &instance{state: func() []proto.Message { return msgs(all()) }, ops: []op{
+			return &instance{model: m, state: func() []proto.Message { return msgs(all()) }, ops: []op{
 				{name: "ListWasteRecords", ro: true, run: func(e *env) error {
 					n := m.GetWasteRecordCount()
 					outList(e, "element", m.ListWasteRecords(n-e.r.Intn(5), 1+e.r.Intn(10)))
@@ -470,14 +486,14 @@ func init() {
 	register(target{name: "booking", pkg: "bookingpb", typ: reflect.TypeOf(&bookingpb.Model{}),
 		build: func(e *env) *instance {
 			var initial []*traits.Booking
-			for _, id := range strPool[:e.r.Intn(3)] {
+			for _, id := range e.initialIDs() {
 				b := newMsg[*traits.Booking](e, 50)
 				b.Id = id
 				initial = append(initial, b)
 			}
 			m := bookingpb.NewModel(bookingpb.WithInitialBooking(initial...))
 			z := &traits.Booking{}
-			return &instance{state: func() []proto.Message { return msgs(m.ListBookings()) }, ops: []op{
+			return &instance{model: m, state: func() []proto.Message { return msgs(m.ListBookings()) }, ops: []op{
 				{name: "ListBookings", ro: true, run: func(e *env) error { outList(e, "element", m.ListBookings(readOpts(e, z)...)); return nil }},
 				{name: "CreateBooking", run: func(e *env) error {
 					b := newMsg[*traits.Booking](e, 50)
@@ -522,7 +538,7 @@ func init() {
 			z := &traits.Hail{}
 			ids := []string{"zz"}
 			id := func(e *env) string { return ids[e.r.Intn(len(ids))] }
-			return &instance{state: func() []proto.Message { return msgs(m.ListHails()) }, ops: []op{
+			return &instance{model: m, state: func() []proto.Message { return msgs(m.ListHails()) }, ops: []op{
 				{name: "ListHails", ro: true, run: func(e *env) error { outList(e, "element", m.ListHails(readOpts(e, z)...)); return nil }},
 				{name: "GetHail", ro: true, run: func(e *env) error {
 					res, _ := m.GetHail(id(e), readOpts(e, z)...)
@@ -578,7 +594,7 @@ func init() {
 	register(target{name: "publication", pkg: "publicationpb", typ: reflect.TypeOf(&publicationpb.Model{}),
 		build: func(e *env) *instance {
 			var initial []*traits.Publication
-			for _, id := range strPool[:e.r.Intn(3)] {
+			for _, id := range e.initialIDs() {
 				p := newMsg[*traits.Publication](e, 60)
 				p.Id = id
 				initial = append(initial, p)
@@ -599,7 +615,7 @@ func init() {
 				}
 				return o
 			}
-			return &instance{state: func() []proto.Message { return msgs(m.ListPublications()) }, ops: []op{
+			return &instance{model: m, state: func() []proto.Message { return msgs(m.ListPublications()) }, ops: []op{
 				{name: "ListPublications", ro: true, run: func(e *env) error {
 					outList(e, "element", m.ListPublications(readOpts(e, z)...))
 					return nil
@@ -663,7 +679,7 @@ func init() {
 				openclosepb.WithPreset(&traits.OpenClosePositions_Preset{Name: "open", Title: "Open"}, pos(1, 100), pos(2, 100)),
 				openclosepb.WithPreset(&traits.OpenClosePositions_Preset{Name: "closed", Title: "Closed"}, pos(1, 0), pos(2, 0)),
 			}
-			if e.flip(60) {
+			if e.present {
 				opts = append(opts, openclosepb.WithInitialPositions(pos(1, 50), pos(2, 25)))
 			}
 			m := openclosepb.NewModel(opts...)
@@ -680,7 +696,7 @@ func init() {
 				}
 				return p
 			}
-			return &instance{
+			return &instance{model: m,
 				state: func() []proto.Message {
 					return append([]proto.Message{ge(m.GetPositions)()}, msgs(m.ListPresets())...)
 				},
@@ -740,7 +756,7 @@ func init() {
 	register(target{name: "electric", pkg: "electricpb", typ: reflect.TypeOf(&electricpb.Model{}),
 		build: func(e *env) *instance {
 			var initial []*traits.ElectricMode
-			for _, id := range strPool[:e.r.Intn(3)] {
+			for _, id := range e.initialIDs() {
 				md := newMsg[*traits.ElectricMode](e, 50)
 				md.Id, md.Normal = id, false
 				initial = append(initial, md)
@@ -754,7 +770,7 @@ func init() {
 				md.Id = id
 				return md
 			}
-			return &instance{
+			return &instance{model: m,
 				state: func() []proto.Message {
 					return append([]proto.Message{m.Demand(), m.ActiveMode()}, msgs(m.Modes())...)
 				},
@@ -848,14 +864,14 @@ func init() {
 			}
 			var stock []*traits.Consumable_Stock
 			var cons []*traits.Consumable
-			for _, n := range strPool[:e.r.Intn(3)] {
+			for _, n := range e.initialIDs() {
 				stock = append(stock, mkStock(e, n))
 				cons = append(cons, mkCons(e, n))
 			}
 			m := vendingpb.NewModel(vendingpb.WithInitialStock(stock...), vendingpb.WithInitialConsumable(cons...))
 			zs, zc := &traits.Consumable_Stock{}, &traits.Consumable{}
 			name := func(e *env) string { return e.pick("a", "b", "c", "d") }
-			return &instance{
+			return &instance{model: m,
 				state: func() []proto.Message { return append(msgs(m.ListInventory()), msgs(m.ListConsumables())...) },
 				ops: []op{
 					{name: "ListConsumables", ro: true, run: func(e *env) error {
